@@ -80,6 +80,13 @@ def seeds(rng, kind):
         for f in [f for f in info['fields'] if f[2].startswith('dir[') and f[2].endswith('.name_length') and f[2] != 'dir[/].name_length'][:3]:
             for v in (0, 1, 0xFFFFFFFF):
                 out.append((f'lv3-{f[2]}:={v:#x}', patch(lv3, f[0], 4, v), [], False, None))
+        # directory names made of separators only ('/', '//', '///': such a directory resolves back to its parent, a walk never ends) and
+        # names with a separator inside them
+        for nm in ('/', '//', '///', 'a/b', '/a', 'a/'):
+            lv3, info = RB.pack_lv3({nm: {'x': b'1'}, 'f': b'abc'})
+            out.append((f'lv3-dirname-{nm!r}', lv3, [], False, None))
+            lv3, info = RB.pack_lv3({'d': {nm: {}}})
+            out.append((f'lv3-nested-dirname-{nm!r}', lv3, [], False, None))
         # one file entry whose 64-bit data offset lies where the file underneath refuses to go (>= 2^63), its siblings intact: the
         # entry cannot be read, the others can
         tree = {'a.bin': b'A' * 40, 'b.bin': b'B' * 50, 'c.bin': b'C' * 60, 'd': {'e.bin': b'E' * 70}}
